@@ -110,7 +110,7 @@ CLAIMED.update({
  "C18": {
   "technique": "TLA+ model checking of spec/Locks.tla (TLC interleaves the lock programs recorded from the real code through the lock-table hooks, under flock and RwLock semantics) for deadlock freedom; seeded concurrent schedules on the real code with a watchdog and wait-for-cycle analysis; TLC (KrillConcTrace.tla) decides for every run whether results and final state are those of a serial execution consistent with real-time order",
   "level": "model_checking",
-  "text": "Lock programs: about 55 operation kinds plus every task they spawn are run alone on both back-ends with the lock hooks on (about 360 programs, 8400 lock steps); they are cut into segments in which the thread holds nothing at both ends, repeated balanced blocks are collapsed and duplicates removed (38 distinct segments, nesting up to 5). TLC interleaves the segments exhaustively under flock semantics and RwLock with and without writer preference: complete segments for 2 threads (quick) and 2-3 threads (thorough), after one / two rounds of leaf-lock elimination (sound for deadlocks, argument at leaf_reduce in checks/c18.py) for 3 / 4 threads; a deadlock of the model is re-run as directed scenarios on the real code before it is reported. Schedules: 2-4 worker threads plus a scheduler thread (a copy of the scheduler loop, or the real verif_run for 20% of scenarios), 7 scenario families on both back-ends with delay injection at the yield points; a 30 s watchdog guards every call, a timeout with a wait-for cycle in the lock table (seen twice, 0.5 s apart) is a violation, one without is a tool error. Linearisability: each call logs start and end numbers from one global atomic counter, its arguments and result; TLC searches a serial order consistent with real-time precedence under a reference model of ROA add/delete, child add/update/remove, RFC 6492 list, publisher add/remove, RFC 8181 delta and purge; the final state comes from the API, the RRDP and rsync files on disk and the relying-party walk.",
+  "text": "Lock programs: about 55 operation kinds plus every task they spawn are run alone on both back-ends with the lock hooks on (about 360 programs, 8400 lock steps); they are cut into segments in which the thread holds nothing at both ends, repeated balanced blocks are collapsed and duplicates removed (38 distinct segments, nesting up to 5). TLC interleaves the segments exhaustively under flock semantics and RwLock with and without writer preference: complete segments for 2 threads (quick) and 2-3 threads (thorough), after two / three rounds of leaf-lock elimination (the first round removes the store caches) (sound for deadlocks, argument at leaf_reduce in checks/c18.py) for 3 / 4 threads; a deadlock of the model is re-run as directed scenarios on the real code before it is reported. Schedules: 2-4 worker threads plus a scheduler thread (a copy of the scheduler loop, or the real verif_run for 20% of scenarios), 7 scenario families on both back-ends with delay injection at the yield points; a 30 s watchdog guards every call, a timeout with a wait-for cycle in the lock table (seen twice, 0.5 s apart) is a violation, one without is a tool error. Linearisability: each call logs start and end numbers from one global atomic counter, its arguments and result; TLC searches a serial order consistent with real-time precedence under a reference model of ROA add/delete, child add/update/remove, RFC 6492 list, publisher add/remove, RFC 8181 delta and purge; the final state comes from the API, the RRDP and rsync files on disk and the relying-party walk.",
   "note": "Schedules on the real code are sampled, not enumerated (quick 315 scenarios, thorough 2700). Lock programs are those of the kinds and states the recorder visits; three locks have no hook and are modelled from source (status cache, pubd update_lock, rsync lock): a deadlock involving them would surface as a tool error, not as a violation. Refusals are compared as ok / refused plus a whitelist of error labels per operation. One refresh_all round runs before the final observation. Known findings: publish races publisher removal (F1), child add answered 'unknown' (F2).",
   "ref": "§6 C18", "engines": ["TLC", "kv-conc"]},
  "C13": {
